@@ -300,6 +300,16 @@ def csr_internals(ctx):
         calls = cb.calls_to(nm)
         good, hit = unreachable_without(cb, ok_ret, removed_nodes=[c.bb for c in calls])
         ctx.require(R5, bool(calls) and good, "%s:%s" % (cb.file, cb.line), "every successful Csr::new passes %s" % nm.rsplit("::", 2)[-2:], ["Csr::new", "must-pass", nm.rsplit("::", 1)[1]])
+    # the signature covers the request as it is when `sign` runs: no setter of the request builder may follow it (a subject or an
+    # extension added after signing leaves a CSR whose self-signature does not verify)
+    signs = cb.calls_to("openssl::x509::X509ReqBuilder::sign")
+    for sg_ in signs:
+        after = cb.reachable_after(sg_.bb)
+        late = [c for c in cb.calls if c.bb in after and c.bb != sg_.bb and (c.name or "").startswith("openssl::x509::X509ReqBuilder::")
+                and (c.name or "").rsplit("::", 1)[-1] not in ("build", "sign", "x509v3_context")
+                and (c.term.get("arg_tys") or [""])[0].startswith("&mut ")]
+        ctx.require(R5, not late, (late[0] if late else sg_).where(), "nothing is set on the request after it has been signed (%s)" % sorted({c.name.rsplit("::", 1)[-1] for c in late}),
+                    ["Csr::new", "set-after-sign"])
     ap = cb.calls_to("openssl::x509::X509NameBuilder::append_entry_by_nid")
     ctx.floor(R5, "append_entry_by_nid in Csr::new", len(ap), 1)
     for c in ap:
